@@ -70,6 +70,8 @@ func runC04(c *an.Ctx) {
 	ruleV6(c)
 	ruleV7(c)
 	ruleV8(c)
+	ruleV9(c)
+	ruleV7c(c)
 }
 
 func ruleV1(c *an.Ctx) {
